@@ -744,6 +744,11 @@ class GenFunctions(object):
                         newcls.fmtdict.update(targs.fmtdict)
                     if targs.options:
                         newcls.options.update(targs.options)
+                        # The wrap flags of the clone were computed before
+                        # the options of this instantiation were applied.
+                        newcls.wrap = ast.WrapFlags(newcls.options)
+                        for fcn in newcls.functions:
+                            fcn.wrap = ast.WrapFlags(fcn.options)
 
                     newcls.expand_format_templates()
                     newcls.typemap = typemap.create_class_typemap(newcls)
